@@ -169,13 +169,16 @@ class Stats:
 # ddmin
 # --------------------------------------------------------------------------
 
-def ddmin(items, test, max_tests=400):
+def ddmin(items, test, max_tests=400, budget_s=90.0):
     """Classic delta debugging on a list.  `test(sublist)` -> True when the
-    failure persists.  Returns a 1-minimal sublist (subject to max_tests)."""
+    failure persists.  Returns a 1-minimal sublist (subject to max_tests and a
+    wall-clock budget: minimisation quality may depend on machine speed, the
+    verdict and the replay never do)."""
     items = list(items)
     n = 2
     tests = 0
-    while len(items) >= 2 and tests < max_tests:
+    t_end = time.monotonic() + budget_s
+    while len(items) >= 2 and tests < max_tests and time.monotonic() < t_end:
         chunk = max(1, len(items) // n)
         subsets = [items[i:i + chunk] for i in range(0, len(items), chunk)]
         reduced = False
@@ -381,7 +384,7 @@ def write_evidence(prop, tier, master, coverage, wall_s, violations, assumptions
 
 def write_replay(prop, seed, case, violation: Violation, extra=None):
     os.makedirs(REPLAY_DIR, exist_ok=True)
-    path = os.path.join(REPLAY_DIR, f"{prop}-{seed}.json")
+    path = os.path.join(REPLAY_DIR, f"{prop}-{seed}-{short_hash(violation.cls)[:6]}.json")
     doc = {"property": prop, "seed": seed, "violation": violation.to_json(),
            "case": case}
     if extra:
